@@ -21,10 +21,14 @@ RULE = (
     "boolean variables, plus seeded random shapes of depth 4 and mixed-value trees with comparison leaves; stream "
     "parse: the AST built by the real BooleanExpression.parse against the model parser for the same shapes with "
     "comparison leaves and for seeded token soups (malformed included, not/parentheses switched on and off); "
-    "stream case: seeded case/when templates with several when-values and else blocks; stream prim: "
+    "stream case: seeded case/when templates with several when-values and else blocks; stream nested: seeded pairs of "
+    "arrays/hashes nested to depth 4 that differ in a few leaves (true/1/1.0/Decimal(1), false/0, NaN), `a == b`, `b == a` "
+    "and case/when through the real tags against the model, and the model's recursive Liquid equality and no-clash / "
+    "NaN-free predicates against their Python restatement; stream prim: "
     "str.isspace over every code point below U+3100, str < and substring on seeded strings. "
     "Non-trivial: ops — every case (each renders all nine operators for one ordered pair of values); "
-    "trees/parse — at least three operands or a not/parenthesis; case — at least two blocks; prim — always."
+    "trees/parse — at least three operands or a not/parenthesis; case — at least two blocks; nested — both operands are "
+    "containers; prim — always."
 )
 TRUSTED_BASE = [
     "Lean 4.33 kernel; axioms subset of {propext, Classical.choice, Quot.sound}",
@@ -43,7 +47,7 @@ ASSUMPTIONS = [
 ]
 MANIFEST = {
     "technique": "Lean 4 proof (type-case tables proved for all values by induction over nested values; Pratt parser right-associativity by induction over operator chains of any length; precedence constants regenerated from source) + exhaustive differential correspondence through the real tags",
-    "text": "Theorems truthy_iff, eq_spec (shallow) / eq_deep_partial + counterexample, lt_spec_partial + counterexample, ordering_type_error_iff, contains_spec, le/ge/ne/gt definitions, if/unless/case/ternary selection, parse_right_assoc (any chain length), group_spec, not_spec, cmp_binds_tighter hold for every value and every token list; models are tied to logical.py by a source translator for the precedence tables and by exhaustive operator x operand-lattice and tree correspondence through {% if %}, unless, elsif, case/when and ternary.",
+    "text": "Theorems truthy_iff, eq_spec, eq_nested_partial (any depth, arrays and hashes) + eq_nested_coarser + eq_nested_counterexample, eq_symm (all values), eq_refl_partial + counterexample (NaN), lt_irrefl_asymm, lt_spec_partial + counterexample, ordering_type_error_iff, contains_spec, le/ge/ne/gt definitions, if/unless/case/ternary selection, parse_right_assoc (any chain length), group_spec, not_spec, cmp_binds_tighter hold for every value and every token list; models are tied to logical.py by a source translator for the precedence tables and by exhaustive operator x operand-lattice and tree correspondence through {% if %}, unless, elsif, case/when and ternary.",
     "note": "Trusted: Lean kernel (axioms propext/Classical.choice/Quot.sound only), the hand models of CPython ==/< on the modelled value classes, the lexer's token kinds, the harness. Three defects fixed in fix-C12 (contains with Python equality / unhashable TypeError; 'true' spelling; grouping parenthesis lexed as range literal); two recorded as known (nested true==1 inside lists, Decimal vs float NaN ordering raises decimal.InvalidOperation).",
 }
 
@@ -1054,6 +1058,127 @@ class CaseStream(Stream):
 
 
 # ------------------------------------------------------------------------------------------------
+# nested values: what == computes at depth, against recursive Liquid equality (deepening round)
+# ------------------------------------------------------------------------------------------------
+
+
+def _no_clash(a, b, top=True):
+    """mirror of the Lean predicate noClashItems/noClash: no aligned pair of items puts a bool against a number"""
+    ta, tb = a["t"], b["t"]
+    if not top:
+        if (ta == "bool" and tb in NUM) or (tb == "bool" and ta in NUM):
+            return False
+    if ta == "list" and tb == "list":
+        return all(_no_clash(x, y, False) for x, y in zip(a["v"], b["v"]))
+    if ta == "dict" and tb == "dict":
+        return all(_no_clash(x[1], y[1], False) for x, y in zip(a["v"], b["v"]))
+    return True
+
+
+def _nan_free(a):
+    if a["t"] == "float" and a["v"] == "nan":
+        return False
+    if a["t"] == "list":
+        return all(_nan_free(x) for x in a["v"])
+    if a["t"] == "dict":
+        return all(_nan_free(x) for _, x in a["v"])
+    return True
+
+
+class NestedStream(Stream):
+    """Pairs of randomly nested arrays/hashes (depth <= 4) that differ, if at all, in a few leaves: `a == b`
+    through a real {% if %} and case/when against the model's _eq, and the model's recursive Liquid equality
+    (deepEq) against the oracle's spec_eq; the theorems' predicates (noClash, nanFree) are recomputed here."""
+
+    name = "nested"
+
+    def cases(self, ctx):
+        from decimal import Decimal as D
+
+        rng = ctx.rng_for("nested")
+        leaves = [None, True, False, 0, 1, 1.0, 0.0, 2, D("1"), D("0"), "a", "", "1", float("nan"), 1.5, [], {}]
+        near = {1: [True, 1.0, D("1"), 2], True: [1, 1.0, D("1"), False], 0: [False, 0.0, D("0")], False: [0, 0.0, None],
+                1.0: [True, 1], 0.0: [False, 0]}
+
+        def gen(d):
+            k = rng.range(0, 9)
+            if d == 0 or k <= 3:
+                return enc(rng.choice(leaves))
+            if k <= 7:
+                return {"t": "list", "v": [gen(d - 1) for _ in range(rng.range(0, 3))]}
+            keys = sorted(set(rng.choice(["a", "b", "c", ""]) for _ in range(rng.range(0, 3))))
+            return {"t": "dict", "v": [[kk, gen(d - 1)] for kk in keys]}
+
+        def perturb(s):
+            t = s["t"]
+            if t == "list" and s["v"] and rng.range(0, 3):
+                i = rng.below(len(s["v"]))
+                return {"t": "list", "v": [perturb(x) if j == i else x for j, x in enumerate(s["v"])]}
+            if t == "dict" and s["v"] and rng.range(0, 3):
+                i = rng.below(len(s["v"]))
+                return {"t": "dict", "v": [[k, perturb(x)] if j == i else [k, x] for j, (k, x) in enumerate(s["v"])]}
+            if t in ("list", "dict"):
+                return s
+            try:
+                o = dec(s)
+                alts = near.get(o) if not isinstance(o, (list, dict)) and o == o else None
+            except Exception:
+                alts = None
+            return enc(rng.choice(alts)) if alts else enc(rng.choice(leaves))
+
+        out = []
+        for _ in range(ctx.scale(2500, 30000)):
+            a = gen(rng.range(1, 4))
+            k = rng.range(0, 5)
+            b = a if k == 0 else (gen(rng.range(1, 4)) if k == 1 else perturb(a if k < 4 else perturb(a)))
+            out.append({"a": a, "b": b})
+        return out
+
+    def impl(self, case):
+        data: dict = {}
+        bind(data, case["a"], "a")
+        bind(data, case["b"], "b")
+        A, B = operand_src(case["a"], "a"), operand_src(case["b"], "b")
+        r1 = run_template(default_env(), "{% if " + A + " == " + B + " %}1{% else %}0{% endif %}", data)
+        data2: dict = {}
+        bind(data2, case["a"], "a")
+        bind(data2, case["b"], "b")
+        r2 = run_template(default_env(), "{% if " + B + " == " + A + " %}1{% else %}0{% endif %}", data2)
+        data3: dict = {}
+        bind(data3, case["a"], "a")
+        bind(data3, case["b"], "b")
+        r3 = run_template(default_env(), "{% case " + A + " %}{% when " + B + " %}1{% else %}0{% endcase %}", data3)
+        return {"eq": r1.get("out", r1.get("err")), "eq_rev": r2.get("out", r2.get("err")), "case": r3.get("out", r3.get("err")),
+                "deep": spec_eq(case["a"], case["b"]), "noclash": _no_clash(case["a"], case["b"]), "nanfree": _nan_free(case["a"])}
+
+    def line(self, case):
+        return ["c12deep", mspec(case["a"]), mspec(case["b"])]
+
+    def canon_model(self, case, mobs):
+        if isinstance(mobs, dict) and "eq" in mobs:
+            return {"eq": "1" if mobs["eq"] else "0", "eq_rev": "1" if mobs["eq_rev"] else "0", "case": "1" if mobs["eq"] else "0",
+                    "deep": mobs["deep"], "noclash": mobs["noclash"], "nanfree": mobs["nanfree"]}
+        return mobs
+
+    def oracle(self, case, obs):
+        want = "1" if obs["deep"] else "0"
+        for k in ("eq", "eq_rev", "case"):
+            if obs[k] != want:
+                if obs[k] == ("1" if spec_eq(case["a"], case["b"], True) else "0") and not obs["noclash"]:
+                    return ("eq|nested-bool-number-conflation", f"{k}: a={dec_repr(case['a'])} b={dec_repr(case['b'])}: documented {want}, got {obs[k]}")
+                return (f"nested|{k}|want={want}|got={obs[k]}|noclash={obs['noclash']}", f"a={dec_repr(case['a'])} b={dec_repr(case['b'])}")
+        if obs["eq"] != obs["eq_rev"]:
+            return ("nested|asymmetric", f"a == b is {obs['eq']} but b == a is {obs['eq_rev']}: a={dec_repr(case['a'])} b={dec_repr(case['b'])}")
+        return None
+
+    def nontrivial(self, case, obs):
+        return case["a"]["t"] in ("list", "dict") and case["b"]["t"] in ("list", "dict")
+
+    def tags(self, case, obs):
+        return ["eq:" + str(obs["eq"]), "deep:" + str(obs["deep"]), "noclash:" + str(obs["noclash"]), "same" if case["a"] == case["b"] else "differ"]
+
+
+# ------------------------------------------------------------------------------------------------
 # primitives the model defines: str.isspace, str <, substring
 # ------------------------------------------------------------------------------------------------
 
@@ -1089,4 +1214,4 @@ class PrimStream(Stream):
 
 
 def streams(ctx):
-    return [OpsStream(), TreesStream(), ParseStream(), MixedStream(), CaseStream(), PrimStream()]
+    return [OpsStream(), TreesStream(), ParseStream(), MixedStream(), CaseStream(), NestedStream(), PrimStream()]
